@@ -280,6 +280,13 @@ def algo_requests(exe, r, group, n, dbg, ops=("interp_slerp", "interp_cubic", "i
                 if d < 2:
                     d = 2
                 X, pts, tags = make_points(exe, r, group, N, 0.8, dbg) if N else (None, [], [])
+                if N >= 2 and r.random() < 0.3:      # duplicated end points / a repeated control point
+                    if r.random() < 0.7:
+                        pts[-1] = list(pts[0])
+                    else:
+                        j = r.randrange(1, N)
+                        pts[j] = list(pts[j - 1])
+                    tags = tags + ["dup"]
                 out.append((gen.req(dbg, "o", group, op, 0, [c for p in pts for c in p], [d, k, cl]), [op, "N%d" % N, "d%d" % d, "k%d" % k, "cl%d" % cl] + tags))
     return out
 
